@@ -141,6 +141,34 @@ def add_flaky_serdes(cfg, rng, p):
             # the k-th decode of the recorded outcome of the already completed operation fails (a replay that cannot read
             # what an earlier invocation stored)
             st["fserdes"] = {"ser": [], "de": [], "det": rng.choice([[1], [1], [2], [1, 2]])}
+    # the SerDes of a map/parallel batch result fails to serialise: the map/parallel itself completes with FAIL
+    for st in oracles.statements(cfg["program"]).values():
+        if st["op"] in ("parallel", "map") and rng.random() < 0.3:
+            st["cfg"] = dict(st.get("cfg") or {})
+            st["cfg"]["serdes"] = {"tag": "B", "ser": rng.choice([[1], [1], [2]]), "de": []}
+    # A transient SerDes failure makes a call raise in one invocation and not in the next. A try handler that runs durable
+    # operations would then make the WORKFLOW non-deterministic (operation ids shift): such handlers are emptied.
+    import json as _json
+
+    def walk(body):
+        for st in body:
+            if st["op"] == "try":
+                if '"fserdes"' in _json.dumps(st["stmt"]) or '"ser":' in _json.dumps(st["stmt"]):
+                    st["handler"] = []
+                walk([st["stmt"]])
+                walk(st.get("handler", []))
+            elif st["op"] == "child":
+                walk(st["body"])
+            elif st["op"] == "callback":
+                walk(st.get("between", []))
+            elif st["op"] == "parallel":
+                for b in st["branches"]:
+                    walk(b["body"])
+            elif st["op"] == "map":
+                for b in (st["bodies"] if "bodies" in st else [st["body"]]):
+                    walk(b)
+
+    walk(cfg["program"]["body"])
 
 
 class C01(Check):
@@ -276,7 +304,7 @@ class C04(Check):
             "entry/inside/exit) and every API call is failed once with a retriable error class (plain and applied-then-error); "
             "API latency > 0 and stalls so that a START can be queued behind a call in flight; non-trivial iff an invocation died "
             "(crash or failed call) in a program with at-most-once steps")
-    base_profile = {"amo_p": 0.8, "weights": {"step": 10, "parallel": 1, "map": 0, "child": 1, "callback": 0, "wfc": 0,
+    base_profile = {"amo_p": 0.8, "weights": {"step": 10, "parallel": 3, "map": 1, "child": 1, "callback": 0, "wfc": 0,
                                               "invoke": 0, "wfcond": 0, "wait": 1, "log": 0},
                     "swarm": False, "fail_p": 0.6, "max_ops": 8, "top_hi": 4}
     quick_cases = 250
@@ -530,6 +558,7 @@ class C10(Check):
             cfg["latency"] = rng.choice([[0.001, 0.002], [0.001, 0.05], [0.01, 0.3]])
             cfg.pop("limits", None)
             return
+        add_flaky_serdes(cfg, rng, 0.15)  # e.g. a map/parallel that completes with FAIL while branches are still running
         if rng.random() < 0.6:
             # slow acknowledgements: an orphan's asynchronous START is still unacknowledged when its parent completes
             cfg["latency"] = rng.choice([[0.05, 1.5], [0.5, 4.0], [1.0, 3.0]])
@@ -651,6 +680,25 @@ class C13(Check):
                     "weights": {"step": 3, "wfcond": 8, "parallel": 2, "map": 1, "child": 1, "wait": 1, "callback": 0, "wfc": 0,
                                 "invoke": 0, "log": 0},
                     "fault_kinds": ["crash-api", "crash-fn", "crash-step", "spurious", "apierr-retry"]}
+
+    def tune(self, cfg, prof, rng):
+        if rng.random() < 0.15:
+            # "poll a job until it is done" inside a branch that is re-polled IN PROCESS: the same state and the same delay
+            # several polls in a row, next to a sibling whose function outlasts all of them
+            k = rng.choice([2, 3, 4])
+            d = rng.choice([1, 1, 2])
+            same = gen.gen_value(rng, 1, True)
+            att = [{"do": "ret", "v": same} for _ in range(k)] + [{"do": "ret", "v": gen.gen_value(rng, 1, True)}]
+            poll = {"op": "wfcond", "check": {"attempts": att}, "strategy": [{"cont": d} for _ in range(k)] + [{"stop": 1}],
+                    "initial": gen.gen_value(rng, 1, True)}
+            if rng.random() < 0.3:
+                poll["ctor"] = True
+            slow = {"op": "step", "fn": {"attempts": [{"do": "ret", "v": ["int", 1], "block": float(k * d + rng.choice([1, 3]))}]}}
+            brs = [{"body": [poll, {"op": "step"}]}, {"body": [slow]}]
+            rng.shuffle(brs)
+            cfg["program"] = {"body": [{"op": "parallel", "branches": brs}, {"op": "step"}]}
+            cfg["latency"] = rng.choice([[0.001, 0.002], [0.001, 0.05], [0.01, 0.3]])
+            cfg.pop("limits", None)
 
     def oracle(self, ix, cfg, golden):
         return oracles.check_c13(ix, cfg)
@@ -933,6 +981,10 @@ def _c09_branch(rng, kind):
                           "retry": {"kind": "script", "decisions": [{"retry": rng.choice([1, 2, 5])}, {"no": 1}]}}]}
     if kind == "block":
         return {"body": [{"op": "step", "fn": {"attempts": [{"do": "ret", "v": ["str", "slow"], "block": 30.0}]}}]}
+    if kind == "nested":
+        # the branch's result is itself the BatchResult of a nested parallel
+        inner = {"op": "parallel", "branches": [{"body": [{"op": "step"}]}, {"body": [{"op": "step", "fn": {"attempts": [{"do": "ret", "v": gen.gen_value(rng, 0, True)}]}}]}]}
+        return {"body": [inner], "ret": ["last"]}
     raise AssertionError(kind)
 
 
@@ -946,7 +998,7 @@ class C09(Check):
     def make_cfg(self, seed_i, prof):
         rng = random.Random(H(seed_i, "prog"))
         n = rng.choice([0, 1, 2, 2, 3, 3, 4, 5, 6])
-        kinds = {"ok": 6, "fail": 4, "wait": 1.5, "callback": 1, "retry": 1, "block": 1.5}
+        kinds = {"ok": 6, "fail": 4, "wait": 1.5, "callback": 1, "retry": 1, "block": 1.5, "nested": 1}
         if rng.random() < 0.4:
             kinds = {"ok": 5, "fail": 5, "block": 2}
         branches = [_c09_branch(rng, gen.pick(rng, kinds)) for _ in range(n)]
@@ -1085,6 +1137,14 @@ class C16(Check):
             c = {"tol": n}
             if rng.random() < 0.5:
                 c["summary"] = True
+            if rng.random() < 0.35:
+                # custom SerDes for the items, the batch result, or both (own prefix each): the rebuilt result must be decoded
+                # with the serialiser each part was written with
+                which = rng.choice(["item_serdes", "serdes", "both"])
+                if which in ("item_serdes", "both"):
+                    c["item_serdes"] = "I"
+                if which in ("serdes", "both"):
+                    c["serdes"] = "B"
             if kind == "parallel":
                 body.append({"op": "parallel", "branches": brs, "cfg": c if rng.random() < 0.8 else None})
                 if body[-1]["cfg"] is None:
